@@ -92,7 +92,7 @@ def showNet : Option (List Wire) → String
   | some ws => "|".intercalate (ws.map showWire)
 
 /-! ### text level: `defparse <pct-encoded text>` → `syntax` | `<ok|raise> <tree> <nets>`; nets = `S:name=<net>` / `N:name=<net>` per special / regular net in file order,
-`!`-separated (`-` for none), `<net>` = its ROUTED wires in the request format above; the tree is lark's parse tree with all
+`!`-separated (`-` for none), `<net>` = the wires of all its wiring statements in the request format above (`?value`: a width token `int()` rejects); the tree is lark's parse tree with all
 tokens kept (`keep_all_tokens=True`): `rule[child,child,..]`, leaves percent-encoded token texts -/
 namespace Text
 open KV.DefText
@@ -175,7 +175,7 @@ def handle (args : List String) : String :=
     | none => "syntax"
     | some f =>
       let nets := f.netsRouted.map fun (sp, name, r) =>
-        (if sp then "S:" else "N:") ++ Def.pct (String.ofList name) ++ "=" ++ Def.showNet r
+        (if sp then "S:" else "N:") ++ Def.pct (String.ofList name) ++ "=" ++ (match r with | none => "?value" | some ws => Def.showNet (some ws))
       s!"{if f.ok then "ok" else "raise"} {file f} {if nets.isEmpty then "-" else "!".intercalate nets}"
   | _ => "bad-args"
 end Text
